@@ -39,7 +39,7 @@ type FaultCase struct {
 	History int `json:"history,omitempty"`
 }
 
-var wholeCallKinds = []string{"transport", "body-cut", "status500", "status404", "status302", "status300-answer", "notjson", "notarray-object", "notarray-null", "single-object-errors", "single-object-errors-400", "array-shorter", "array-longer"}
+var wholeCallKinds = []string{"transport", "body-cut", "status500", "status404", "status302", "status300-answer", "notjson", "notarray-object", "notarray-null", "single-object-errors", "single-object-errors-400", "status502-object", "status502-empty-errors", "array-trailing-garbage", "array-shorter", "array-longer"}
 var elementKinds = []string{"elem-null", "elem-number", "errors-with-data", "errors-no-data", "errors-null-entry", "errors-empty-list", "data-missing", "data-null"}
 var nodeKinds = []string{"node-missing", "node-null", "node-string", "node-list", "node-number"}
 var shapeKinds = []string{"obj->list", "list->obj", "scalar-for-object", "list-entries-nonmaps", "null-for-list", "drop-id", "id-number", "id-object"}
@@ -47,7 +47,7 @@ var shapeKinds = []string{"obj->list", "list->obj", "scalar-for-object", "list-e
 // failureSignal: kinds for which the client's errors must be non-empty.
 func failureSignal(kind string) bool {
 	switch kind {
-	case "transport", "body-cut", "status500", "status404", "status302", "status300-answer", "notjson", "notarray-object", "notarray-null", "single-object-errors", "single-object-errors-400", "array-shorter", "array-longer",
+	case "transport", "body-cut", "status500", "status404", "status302", "status300-answer", "notjson", "notarray-object", "notarray-null", "single-object-errors", "single-object-errors-400", "status502-object", "status502-empty-errors", "array-trailing-garbage", "array-shorter", "array-longer",
 		"errors-with-data", "errors-no-data", "errors-null-entry", "data-missing", "node-missing", "node-string", "node-list", "node-number":
 		return true
 	}
@@ -141,6 +141,14 @@ func applyFault(f Fault, reqs []*fake.Received, normal []map[string]interface{})
 		return &fake.FaultResponse{Body: []byte(`{"errors":[{"message":"batched requests are not supported"}]}`)}, true
 	case "single-object-errors-400":
 		return &fake.FaultResponse{Status: 400, Body: []byte(`{"errors":[{"message":"batched requests are not supported"}]}`)}, true
+	case "status502-object":
+		// what a proxy in front of the service says: a JSON object that is no GraphQL answer
+		return &fake.FaultResponse{Status: 502, Body: []byte(`{"message":"Bad Gateway","code":502}`)}, true
+	case "status502-empty-errors":
+		return &fake.FaultResponse{Status: 502, Body: []byte(`{"errors":[],"data":null}`)}, true
+	case "array-trailing-garbage":
+		// a well-formed answer followed by more bytes is not a well-formed answer
+		return &fake.FaultResponse{Body: append(marshal(normal), []byte(`{"errors":[{"message":"late failure"}]}`)...)}, true
 	case "notjson":
 		return &fake.FaultResponse{Body: []byte("<html>oops</html>")}, true
 	case "notarray-object":
@@ -532,7 +540,7 @@ func c09Gate(kind string) string { return "fault." + kind }
 
 func TestC09(t *testing.T) {
 	rec := ev.Get("C09")
-	rec.Rule = "for each generated (world, store, operation, max batch size) a clean run records the downstream HTTP calls; then EVERY (fault kind x call x batch position) is injected one at a time (31 kinds: transport error, 500/404/302, 300 with a well-formed answer, not JSON, not an array, one error object for the whole batch (200/400), array shorter/longer, element null/number, errors with/without data, data missing/null, node missing/null/string/list/number, object<->list, scalar for object, non-map list entries, null list, id dropped/number/object), plus one sampled pair of faults, now and then a series of 120..200 requests meeting the same fault on one gateway before the checked run, with and without a healthy bystander operation in the same batch; evaluations counts injections; non-trivial = the faulted call is a child step (depth>=1) or carries >=2 requests; distinct by (query text of the call, kind, position class, batch size)"
+	rec.Rule = "for each generated (world, store, operation, max batch size) a clean run records the downstream HTTP calls; then EVERY (fault kind x call x batch position) is injected one at a time (34 kinds: transport error, 500/404/302, 300 with a well-formed answer, 502 with a JSON object that is no answer, an answer followed by trailing bytes, not JSON, not an array, one error object for the whole batch (200/400), array shorter/longer, element null/number, errors with/without data, data missing/null, node missing/null/string/list/number, object<->list, scalar for object, non-map list entries, null list, id dropped/number/object), plus one sampled pair of faults, now and then a series of 120..200 requests meeting the same fault on one gateway before the checked run, with and without a healthy bystander operation in the same batch; evaluations counts injections; non-trivial = the faulted call is a child step (depth>=1) or carries >=2 requests; distinct by (query text of the call, kind, position class, batch size)"
 	defer census.dump("C09")
 	rapid.Check(t, func(t *rapid.T) {
 		base, _ := genExecCase(t, rec, ast.Query)
